@@ -90,6 +90,7 @@ class Valuer:
         self.facts = facts or Facts()
         self.invs = {}                    # inv symbol name -> argument poly
         self.lemmas = []
+        self.bool_defs = {}               # local name -> the Boolean expression it was bound to (fits = is_guard() and ..)
         self.exact_int = False            # integer semantics: `x % modulus` is not x (Python-agreement rules of C05)
         self.uninterp = False             # unknown calls become uninterpreted function symbols (lock-step rule of C04)
 
@@ -121,6 +122,13 @@ class Valuer:
         txt = norm(t)
         if txt in self.facts.truth and self.facts.truth[txt] != truth:
             raise Contradiction(txt)
+        if isinstance(t, ast.Name) and t.id in self.bool_defs:
+            # a test on a local that names a condition: the condition itself has that truth value
+            d_ = self.bool_defs.pop(t.id)
+            self.facts.truth[txt] = truth
+            self.assume(d_, truth)
+            self.bool_defs[t.id] = d_
+            return
         if isinstance(t, ast.Name) and t.id in self.env:
             # a test on a local that holds a known constant (a flag) is decided by that constant
             a = self.env[t.id]
@@ -780,6 +788,11 @@ def replay(v, path, unknown="?%s"):
     for st in path.steps:
         if st[0] == "assign":
             _, name, node = st
+            # a later binding of any name the recorded conditions mention invalidates them
+            for k_ in [k_ for k_, d_ in v.bool_defs.items() if k_ == name or any(isinstance(x, ast.Name) and x.id == name for x in ast.walk(d_))]:
+                v.bool_defs.pop(k_, None)
+            if isinstance(node, (ast.BoolOp, ast.Compare)) or (isinstance(node, ast.UnaryOp) and isinstance(node.op, ast.Not)):
+                v.bool_defs[name] = node
             try:
                 v.env[name] = v.val(node)
             except Undecidable:
